@@ -287,6 +287,30 @@ static void ple_case(const vh_args_t *a, int op, int big) {
   vh_free_all();
 }
 
+/* the Four-Russians base case with an explicit k and a LAST block of every width r = 1 .. 7k: every number of tables
+ * (2 .. 7 and the single-table fall-back) and every split of a block over the tables is used for the updates below and
+ * right of the block; dense (all blocks full) and rank-deficient contents */
+static void ple_sweep_case(int k, int r, int which) {
+  int lead = vh_pick((int[]){0, 7 * k, 64}, 3);
+  int n = lead + r, m = n + vh_pick((int[]){3, 20, 70}, 3);
+  mzd_t *A = vh_mk(m, n, -1);
+  vh_fill_profile(A, vh_pick((int[]){0, 0, 1, 2}, 4));
+  mzp_t *P = mzp_init(m), *Q = mzp_init(n);
+  junk_perm(P); junk_perm(Q);
+  vh_ev_t e;
+  vh_begin(&e, which ? "_pluq_russian" : "_ple_russian");
+  vh_pi(&e, "cutoff", 0); vh_pi(&e, "k", k); vh_pi(&e, "big", 0); vh_pi(&e, "isple", !which);
+  vh_opnd(&e, "A", 'b', A);
+  vh_pre(&e);
+  if (VH_CALL(&e)) e.ret = which ? _mzd_pluq_russian(A, P, Q, k) : _mzd_ple_russian(A, P, Q, k);
+  VH_END(&e);
+  vh_pa(&e, "P", P->values, m);
+  vh_pa(&e, "Q", Q->values, n);
+  vh_post(&e);
+  mzp_free(P); mzp_free(Q);
+  vh_free_all();
+}
+
 int fam_ple(const vh_args_t *a) {
   int ncases = a->cases ? a->cases : (a->tier ? 4000 : 640);
   int nbig = a->tier ? 64 : 10;
@@ -309,6 +333,18 @@ int fam_ple(const vh_args_t *a) {
     else ple_case(a, (int)(idx % P_NOPS), 0);
     VH_CASE_END
   }
+  if (strstr(a->extra, "nosweep") || strstr(a->extra, "onlybig")) return 0;
+  long sidx = 3000000;
+  static const int KS[] = {2, 3, 5, 8};
+  for (int ki = 0; ki < 4; ki++)
+    for (int r = 1; r <= 7 * KS[ki]; r++, sidx++) {
+      if (!a->tier && (int)((r + ki + a->seed) % 2) != 0) continue;      /* quick: every other width, rotating with the seed */
+      if (!VH_SHARD(a, sidx)) continue;
+      vh_case_seed(a, sidx);
+      VH_CASE(sidx)
+      ple_sweep_case(KS[ki], r, (int)(sidx % 2));
+      VH_CASE_END
+    }
   return 0;
 }
 
